@@ -73,7 +73,7 @@ class _Gen:
                 out.append(f'{ind}acc = acc + {self.expr(avail)}')
             elif kind == 'for':
                 e = self.name('e')
-                it = r.choice(['xs', 'ys', f'range({r.randint(2, 5)})'])
+                it = r.choice(['xs', 'ys', f'range({r.randint(2, 5)})', f'[leaf({r.choice(avail)}), {r.choice(avail)}]'])
                 out.append(f'{ind}for {e} in {it}:')
                 out.append(f'{ind}    acc = acc + {e} * {self.const()}')
                 out += self.block(avail + [e], depth + 1, ind + '    ', budget)
@@ -86,7 +86,10 @@ class _Gen:
                     out += self.block(avail + [w], depth + 1, ind + '    ', budget)
                 avail.append(w)
             elif kind == 'if':
-                out.append(f'{ind}if {r.choice(avail)} > {self.const()}:')
+                cond = r.choice(avail)
+                if r.random() < 0.35:
+                    cond = f'{r.choice(["leaf", "mid"])}({cond})'      # a call in the header of a compound statement
+                out.append(f'{ind}if {cond} > {self.const()}:')
                 out += self.block(avail, depth + 1, ind + '    ', budget) or [f'{ind}    acc = acc + {self.const()}']
                 if r.random() < 0.6:
                     out.append(f'{ind}else:')
